@@ -342,6 +342,19 @@ pub fn gen_c19(r: &mut Rng, thorough: bool, out: &mut Vec<String>) {
         out.push(format!("fmt {}", s));
         out.push(format!("discover {}", s));
     }
+    // names are opaque text: generic-looking (`Result<T, E>`, `Wrapper<Meters>`), starting with `<`, with braces,
+    // commas, quotes, parentheses - a top-level rendering must still MENTION them
+    {
+        use postcard_schema::schema::owned::{OwnedData as D, OwnedNamedField as NF, OwnedVariant as NV};
+        for name in ["Result<T, E>", "Range<T>", "Wrapper<Meters>", "<T as Tr>::Out>", "a{b}c", "x, y", "say \"hi\"", "f(x)", "Vec<Vec<u8>>", ">", "<>"] {
+            let st = O::Struct { name: name.into(), data: D::Struct(vec![NF { name: format!("f_{}", name).into(), ty: O::U8 }].into()) };
+            let en = O::Enum { name: name.into(), variants: vec![NV { name: format!("V<{}>", name).into(), data: D::Newtype(Box::new(O::Bool)) }, NV { name: name.into(), data: D::Unit }].into() };
+            for s in [st, en, O::Struct { name: name.into(), data: D::Unit }, O::Struct { name: name.into(), data: D::Newtype(Box::new(O::U16)) }] {
+                out.push(format!("fmt {}", show(&s)));
+                out.push(format!("discover {}", show(&s)));
+            }
+        }
+    }
     // deep / wide schemas (the set of used types of a d-deep chain has d+1 members)
     for s in scale_schemas(r, if thorough { 300 } else { 257 }, if thorough { 513 } else { 257 }) {
         out.push(format!("fmt {}", show(&s)));
